@@ -102,7 +102,13 @@ NEG_INF = float("-inf")
 # ------------------------------------------------------------------------------------ generation
 def gen_case(rng, tier, stream=None):
     stream = stream or rng.choice(["extreme", "extreme", "mixed", "moderate", "zero-slice", "zero-slice",
-                                   "interface"])
+                                   "interface", "block", "block"])
+    block = stream == "block"
+    if block:
+        # like zero-slice, but instead of a zero block one tensor gets *different magnitudes along a
+        # sliced index* (every entry still within 1e-100..1e100): consecutive slices then differ by
+        # hundreds of orders of magnitude, which only the combination of slices can get wrong
+        stream = "zero-slice"
     nmax = 4 if tier == "quick" else 5
     net = gen.rand_net(rng, nmin=1 if stream == "interface" else 2, nmax=nmax, max_inds=6, dims=(1, 2, 2, 3),
                        max_rank=4, max_total=3000)
@@ -153,11 +159,33 @@ def gen_case(rng, tier, stream=None):
     if stream == "zero-slice":
         # zero out one tensor on one value of a sliced index that it carries (if any tensor does)
         cands = [(ti, ix) for ti, t in enumerate(net.inputs) for ix in sliced if ix in t and net.sizes[ix] >= 2]
-        if cands:
+        if cands and not block:
             ti, ix = rng.choice(cands)
             v = rng.randrange(net.sizes[ix])
             case["zeroed"] = [ti, ix, v]
             _zero_out(net, arrays, ti, ix, v)
+        if cands and block:
+            ti, ix = rng.choice(cands)
+            case["stream"] = "block"
+            signs = [rng.choice([-1, 1]) for _ in range(net.sizes[ix])]
+            if len(set(signs)) == 1:
+                signs[rng.randrange(len(signs))] *= -1
+            # every tensor carrying the index (or just one of them) gets the same sign pattern, so
+            # that whole slices differ by up to several hundred orders of magnitude
+            carriers = [k for k, t in enumerate(net.inputs) if ix in t]
+            if rng.random() < 0.3:
+                carriers = [ti]
+            blocks = []
+            for k in carriers:
+                case["scales"][k] = 0
+                blocks.append([k, ix, [sg * rng.randint(80, 97) for sg in signs]])
+            case["block"] = blocks
+            for a in arrays:
+                for j, v in enumerate(a):
+                    if v == 0:
+                        a[j] = 1
+        elif block:
+            case["stream"] = "extreme"
     if stream == "interface":
         case["interface"] = rng.choice(["array_contract", "expression"])
     return case
@@ -184,6 +212,13 @@ def build(case):
     for a, sh, s in zip(case["ints"], shapes, case["scales"]):
         c = float(10.0 ** s) if s >= 0 else 1.0 / float(10.0 ** (-s))
         farrays.append((np.array(a, dtype=np.float64) * c).reshape(sh))
+    for ti, ix, exps in (case.get("block") or []):
+        t = net.inputs[ti]
+        a = farrays[ti]
+        for v, e in enumerate(exps):
+            sel = tuple(v if i == ix else slice(None) for i in t)
+            f = float(10.0 ** e) if e >= 0 else 1.0 / float(10.0 ** (-e))
+            a[sel] = a[sel] * f
     return net, farrays
 
 
